@@ -288,6 +288,21 @@ Theorem C14_lexer_model_instantiated s e snap :
    outI eqb nl T (snd (rawlex scan ignore T (S (e - s)) [] s e))).
 Proof. intros Hb L1 L2. exact (lex_slice_rawlex eqb nl scan ignore newline_types T e Hb L2 s e snap L1 L2). Qed.
 
+(* the mid-text lexer each turn starts - with the line-counter snapshot the loop itself computed - is the lexer
+   model of Pos/LexCoords on [match_start, wb): the snapshot is the exact (line, line_start_pos) of Pos/Coord, and
+   the tokens it yields are the turn's main stream with the coordinates of the full text *)
+Theorem C14_loop_lexer_exact_instantiated :
+  scan_positive scan T -> scan_bounded scan T -> wb <= length T -> wa <= wb ->
+  forall it, In it (fst (itersI eqb nl scan ignore T wa wb starts tnum end_term P fuel)) ->
+  let m := it_m it in
+  (Z.of_nat (lc_line (it_lc it)), Z.of_nat (lc_lsp (it_lc it)))
+    = (Coord.line_of eqb nl T m, Coord.line_start_of eqb nl T m) /\
+  LexCoords.lex_slice eqb nl scan ignore newline_types T (Z.of_nat m) (Z.of_nat wb)
+    (Some (Z.of_nat (lc_line (it_lc it)), Z.of_nat (lc_lsp (it_lc it)))) =
+  (map (retok eqb nl T) (main_stream (lexI scan ignore T wb) m),
+   outI eqb nl T (snd (rawlex scan ignore T (S (wb - m)) [] m wb))).
+Proof. exact (loop_lexer_exact eqb nl scan ignore newline_types T wa wb starts tnum end_term P fuel). Qed.
+
 (* (2) the driver: feeding is prefix-closed; the '$END' guard is implied by the trial; and the loop that threads
    ONE parser state and makes the trial on that state is the abstract stunted parse (a trial cannot disturb it) *)
 Theorem C14_feed_prefix_closed_instantiated : H_feed_prefix_closed (feed_okI eqb nl T tnum P fuel).
@@ -370,6 +385,7 @@ Proof. exact (scan_no_miss_inst eqb nl scan ignore newline_types T wa wb starts 
 End C14_instantiated.
 Print Assumptions C14_lexer_chain_instantiated.
 Print Assumptions C14_lexer_model_instantiated.
+Print Assumptions C14_loop_lexer_exact_instantiated.
 Print Assumptions C14_feed_prefix_closed_instantiated.
 Print Assumptions C14_stunted_incremental.
 Print Assumptions C14_H_stable_instantiated.
